@@ -4,6 +4,7 @@ import (
 	"context"
 	"errors"
 	"fmt"
+	"net"
 
 	netty "github.com/go-netty/go-netty"
 	"github.com/go-netty/go-netty/verifsim/simnet"
@@ -237,9 +238,10 @@ func (h *WHist) OracleBackPressure(e *Env, segs []wseg) {
 			case c.ctxErrWant != nil && errors.Is(c.Err, c.ctxErrWant):
 				ok = true
 				e.Count("ctx_error_returned", 1)
-			case h.CloseCalled && cfg.CloseErr != nil && c.Err == cfg.CloseErr:
+			case h.CloseCalled && c.Ret > h.CloseInv && (c.Err == cfg.CloseErr || errors.Is(c.Err, net.ErrClosed)):
+				// the close error itself, or a generic "closed" error while the Close call is still in progress
 				ok = true
-				e.Count("close_error_returned_to_waiting_writer", 1)
+				e.Count("close_error_returned_to_writer", 1)
 			}
 			if !ok {
 				e.Violate("error-kind", classOf(c, cfg.Chan), "%s returned an error that is neither its context's error, the close error nor queue-full", c)
